@@ -44,7 +44,7 @@ def generate(vh, d, name, eps):
 def limits_of(text):
     """endpoint name -> (N or None, has compile_error) from the sync server trait"""
     out = {}
-    for m in re.finditer(r"fn\s+(e\d+)\s*\(\s*&self\s*,\s*#\[body\(deserializer\s*=\s*conjure_http::server::StdRequestDeserializer(\s*<([^>]*)>)?", text):
+    for m in re.finditer(r"fn\s+(e\d+)\s*\(\s*&self\s*,\s*#\[\s*body\s*\(\s*deserializer\s*=\s*conjure_http\s*::\s*server\s*::\s*StdRequestDeserializer(\s*<([^>]*)>)?", text):
         arg = (m.group(3) or "").strip()
         n = re.match(r"^(\d+)\s*(usize)?$", arg)
         out.setdefault(m.group(1), []).append((int(n.group(1)) if n else None, "compile_error" in arg, arg))
